@@ -600,8 +600,8 @@ fn main() {
     let seed = s.seed;
     s.run_enum(&Corpus, corpus_cases().into_iter(), false);
     s.run(&Datasets);
-    if tier == Tier::Thorough {
-        let job = FuzzJob { runs: 400_000, seed: if seed == 0 { 1 } else { seed & 0x7fff_ffff } };
+    if tier == Tier::Thorough && std::env::var("C14_NO_FUZZ").is_err() {
+        let job = FuzzJob { runs: 240_000, seed: if seed == 0 { 1 } else { seed & 0x7fff_ffff } };
         s.run_enum(&LibFuzzer, std::iter::once(job), false);
     }
     if discover() {
